@@ -29,4 +29,51 @@ uint64_t nondet_u64(void);
 size_t nondet_size(void);
 bool nondet_bool(void);
 
+/* ---- stand-ins for <algorithm> loops over bytes.  Each has a contract that is enforced on the C body below
+ * (unit 'prelude_*' of the property that uses it); callers use the contract only.  Their faithfulness to
+ * libstdc++ is an assumed dependency.  The ghost index G_pre_j replaces a universal quantifier. */
+size_t G_pre_j;
+#ifndef BT_BYTES_MAX
+#define BT_BYTES_MAX 1024
+#endif
+
+#ifdef BT_NEED_FILL
+void bt_fill_u8(uint8_t* p, size_t n, uint8_t v)
+__CPROVER_requires(n <= BT_BYTES_MAX && __CPROVER_rw_ok(p, n))
+__CPROVER_ensures(G_pre_j < n ==> p[G_pre_j] == v)
+__CPROVER_assigns(__CPROVER_object_upto(p, n))
+#ifdef BT_FILL_BODY
+{
+    for (size_t i = 0; i != n; ++i)
+    __CPROVER_assigns(i, __CPROVER_object_upto(p, n))
+    __CPROVER_loop_invariant(i <= n && (G_pre_j < i ==> p[G_pre_j] == v))
+    __CPROVER_decreases(n - i)
+        p[i] = v;
+}
+#else
+;
+#endif
+#endif
+
+#ifdef BT_NEED_COPY
+/* std::copy(first, first + n, out) for non-overlapping byte ranges; returns out + n */
+uint8_t* bt_copy_u8(const uint8_t* first, size_t n, uint8_t* out)
+__CPROVER_requires(n <= BT_BYTES_MAX && __CPROVER_r_ok(first, n) && __CPROVER_rw_ok(out, n))
+__CPROVER_ensures(G_pre_j < n ==> out[G_pre_j] == first[G_pre_j])
+__CPROVER_ensures(__CPROVER_return_value == out + n)
+__CPROVER_assigns(__CPROVER_object_upto(out, n))
+#ifdef BT_COPY_BODY
+{
+    for (size_t i = 0; i != n; ++i)
+    __CPROVER_assigns(i, __CPROVER_object_upto(out, n))
+    __CPROVER_loop_invariant(i <= n && (G_pre_j < i ==> out[G_pre_j] == first[G_pre_j]))
+    __CPROVER_decreases(n - i)
+        out[i] = first[i];
+    return out + n;
+}
+#else
+;
+#endif
+#endif
+
 #endif
